@@ -15,7 +15,7 @@ from lv.typemeet import BOT
 ID = 'C16'
 # Hypothesis-sampled cases (pairs and triples at depth <= 3); the exhaustive
 # depth <= 2 sub-domain is enumerated IN ADDITION in every run (see evidence_extra).
-BUDGET = {'quick': 24000, 'thorough': 400000}
+BUDGET = {'quick': 24000, 'thorough': 200000}
 WALL = {'quick': 900, 'thorough': 5400}
 EXHAUSTIVE = None       # only the sub-domain described in evidence_extra is exhaustive
 
